@@ -212,6 +212,18 @@ check('C16',
       'Trusted: numpy dense residual; CuPy back-end unavailable; SciPy solve() only judged when a refresh was requested.',
       'DESIGN.md 7 C16')
 
+check('C13',
+      'property-based testing (Hypothesis): xlsx/json dump->load round trips of stock and generated cases compared field '
+      'by field and by power-flow solution; generated networks written by independent RAW v33 / MATPOWER writers (CW 1-3, '
+      'CZ 1-2, line shunts, non-100 MVA bases, several loads per bus, offline devices, string idx) and loaded by ANDES vs '
+      'the natively added system and the independent nodal-balance oracle; system2mpc->mpc2system; stock .raw/.m files vs '
+      'an independent reading of the same text',
+      'Round-trip and differential testing across formats with independent writers/readers.',
+      'Trusted: vf/oracle/rawio.py (writers/readers typed from the format descriptions), vf/oracle/pf.py. RAW subset: '
+      'winding 2 at nominal ratio, no magnetising admittance; DYR records are not covered by an independent reader '
+      '(only through round trips of cases that were loaded from raw+dyr).',
+      'DESIGN.md 7 C13')
+
 NOT_BUILT = 'check not built yet in this round (machinery in progress; see DESIGN.md section 10 build order)'
 ALL = ['C%02d' % i for i in range(1, 21)]
 
